@@ -2,12 +2,14 @@ package main
 
 import (
 	"fmt"
+	"runtime/debug"
 	"os"
 	"sort"
 	"strings"
 )
 
 func main() {
+	debug.SetGCPercent(600) // the term tables are long-lived; frequent collection dominated run time
 	if len(os.Args) < 2 {
 		fmt.Fprintln(os.Stderr, "usage: govc ssa <func>... | check <Cxx> [--tier quick|thorough] | replay <path>")
 		os.Exit(2)
